@@ -6,7 +6,8 @@
    (exp_roundtrip), which the kernel evaluates per exponent — it is not true of every rational
    (a denominator beyond 2^53 cannot survive), so it stays a computed side condition instead of
    becoming an unconditional theorem. *)
-From Coq Require Import String List ZArith QArith Qcanon Bool Floats.
+From Coq Require Import String List ZArith QArith Qcanon Bool.
+From Coq Require Import PrimFloat.
 From NV Require Import Dim.Model Dim.Infer Dim.Run Dim.RunTreeProofs Dim.RunProgProofs Dim.FloatExact.
 Import ListNotations.
 
